@@ -31,7 +31,8 @@ CLAIMED = {
         "theorems exclude, by an explicit boolean hypothesis, positions inside np.isclose's tolerance of a sample (known "
         "finding, refuted theorem with witness). The executable oracle applied to the implementation's answers is proven "
         "sound w.r.t. the specification. Tie: seeded correspondence on exact rationals of float inputs against real "
-        "dimension objects of a scratch NIX file.",
+        "dimension objects of a scratch NIX file; linked range / set dimensions are compared, after every call of the "
+        "dimension-link histories, with unlinked twins holding the same ticks / labels (test level).",
         "Trusted: Coq kernel; numpy semantics (np.round half-even, np.isclose formula, np.floor, np.where order) as modelled; "
         "IEEE rounding of (position-offset)/interval is not modelled (inputs within 1e-11 of a decision edge are skipped and "
         "counted); hand-written model tied by correspondence only.",
@@ -45,7 +46,10 @@ CLAIMED = {
         "store is unchanged, an operation that would change the file fails, and what succeeds returns what a writable session "
         "returns - proven once for all programs of the command monad. Library version / format tag / id-requirement literal are "
         "regenerated from nixio/file.py on every run. Tie: exhaustive grid of crafted headers opened with the real File.open, and "
-        "random histories with read-only sessions (results, walks, sha256 of the file).",
+        "random histories with read-only sessions (results, walks, sha256 of the file). Test-level extension of the alphabet at "
+        "every read-only reopen: every public property / reader method of every entity (reflection) answers as in a writable "
+        "session on a byte-identical copy, and every settable attribute that holds a value refuses None and its own value, on "
+        "the file and on a copy whose optional attributes were all set first.",
         "Trusted: Coq kernel; translator section FileConsts; util.is_uuid abstracted to valid/invalid/missing; byte identity after "
         "refused/read-only opens and sessions is exercised (sha256), libhdf5 not modelled; API model Nix/Api.v tied by correspondence.",
         "DESIGN.md section 5 C11", TECH),
@@ -54,9 +58,12 @@ CLAIMED = {
         "handles hold addresses), the walk is a function of five leaf observations, last write wins, every other attribute and "
         "link is framed. The content of the claim comes from the correspondence: the real file is walked through fresh objects "
         "after every operation and after every close+reopen, operations go through randomly chosen old handles, and the digests "
-        "must equal the model's; plus the trace predicate walk-after-reopen = walk-before-close on the implementation alone.",
+        "must equal the model's; plus the trace predicate walk-after-reopen = walk-before-close on the implementation alone, a "
+        "reflection sweep over every read accessor before closing / after reopening, and numeric attributes assigned "
+        "int / float / numpy sequences read back through fresh objects (test level).",
         "Trusted: see evidence.trusted_base. Modelled kinds: blocks, groups, arrays (opaque data), tags, multi-tags, features, "
-        "sources, sections, properties; dimension descriptors and data frames are not yet in this walk.",
+        "sources, sections, properties, data frames (one column); dimension descriptors only through the dimension-link "
+        "machine and the accessor sweeps.",
         "DESIGN.md section 5 C02", TECH),
     "C03": (
         "Coq theorems: duplicate name refused with unchanged state; a created entity gets the next id of the supply with its "
@@ -83,7 +90,10 @@ CLAIMED = {
         "CURRENT vector, unit and label after any later writes to the target, a linked set dimension the vector as its labels; a "
         "unit/label set through the dimension is set on the target; accepted ticks remove the link and read back, an accepted link "
         "removes the stored ticks - tied by dimension histories (every class of index specification, unlink, reopen) with stored "
-        "fields and reported values compared after every call. DataFrame links are not modelled.",
+        "fields and reported values compared after every call, through two Python objects of every participant. Data frames "
+        "as feature data are modelled (the walk records the kind of object a feature presents). Test level: every object "
+        "reached through a link answers every read accessor like the object reached through its container. DataFrame links of "
+        "dimensions are not modelled.",
         "Trusted: see evidence.trusted_base.",
         "DESIGN.md section 5 C05", TECH),
     "C12": (
@@ -155,7 +165,8 @@ CLAIMED = {
         "and fills new ones; no operation changes the element type. Tie: histories (whole/region writes with C06's expressions, "
         "append along every axis incl. mismatches, resize, reopen RO/RW) over 12 element types x 3 creation variants x random "
         "file/block/array compression triples, with all cells compared bit-for-bit after every step, plus dtype, len, size, "
-        "read_direct, single-element reads and the stored dataset's compression filter.",
+        "read_direct, single-element reads, the shape of the whole read and the stored dataset's compression filter; the calls "
+        "alternate between two Python objects of the array and every observation is made through both.",
         "Trusted: Coq kernel; h5py/libhdf5 (chunks, gzip, fill) exercised not proven; numpy casting not modelled (only values of the "
         "array's own type are written). The distinctness / in-range hypotheses of the region theorem are now derived for every "
         "selection within the extents (c01_region_inbounds, c01_selection_cells_distinct).",
@@ -165,8 +176,9 @@ CLAIMED = {
         "read is the polynomial of the corresponding raw element (after subtracting the origin); slicing and calibration commute "
         "for every selection; without coefficients and with no/zero origin a read is the raw data. Tie: 9 numeric element types, "
         "values on a dyadic grid where float64 Horner is exact, whole reads compared with the model and the polynomial "
-        "specification in Gallina, region/view/tagged reads compared with the whole read, raw h5py read of the dataset after "
-        "every set/clear step, result dtype.",
+        "specification in Gallina, region/view/tagged reads and read_direct (array, view, tagged view) compared with the whole "
+        "read, raw h5py read of the dataset after every set/clear step, result dtype; calibration assigned through either of two "
+        "objects (whole numbers also as Python ints), views kept from the previous step read again.",
         "Trusted: Coq kernel; IEEE rounding outside the dyadic grid not modelled; 'calibration never alters the raw values' is true "
         "of the model by construction and only exercised.",
         "DESIGN.md section 5 C15", TECH),
@@ -251,8 +263,8 @@ CLAIMED = {
         "File.close are the call sequences translated from nixio/file.py by ast on every run (fail closed), so the theorems are "
         "re-checked against what the code says now. Tie / experiment: writer processes run generated histories plus compressed "
         "and uncompressed arrays grown by appends, save the state aside, call flush() or close() and SIGKILL themselves; fresh "
-        "processes open the file read-only and read-write and compare the canonical walk and every array's content; the writers' "
-        "histories are also compared with the store model.",
+        "processes open the file read-only and read-write and compare the canonical walk and every array's content (flush points "
+        "with an empty / emptied file included); the writers' histories are also compared with the store model.",
         "PARTIAL by nature: what H5Fflush/H5Fclose do to the bytes on disk (metadata cache, chunk cache, the operating system's "
         "page cache under SIGKILL - not power loss) is an assumption of the model, exercised by the experiment on this file "
         "system, not proven; kills BETWEEN a write and the flush are outside the property.",
